@@ -41,9 +41,9 @@ def shape_key(b, depth=1):
     return '%s(%s)' % (op, ','.join(shape_key(k, depth - 1) for k in kids))
 
 
-def interps_for(syms, rng, n_samples=32, seed=0, limit=4096):
+def interps_for(syms, rng, n_samples=32, seed=0, limit=4096, pool=None):
     return R.interpretations(syms, rng, n_samples=n_samples, limit=limit,
-                             seed=seed)
+                             seed=seed, pool=pool)
 
 
 def compare(b1, b2, rng, n_samples=32, seed=0, extra_syms=(), qf_only=False,
@@ -61,7 +61,9 @@ def compare(b1, b2, rng, n_samples=32, seed=0, extra_syms=(), qf_only=False,
     expensive = 0
     steps = 0
     exhaustive = R.interp_space(sorted(syms)) is not None
-    for idx, I in enumerate(interps_for(syms, rng, n_samples, seed)):
+    pool = R.constant_pool(b1, b2)
+    for idx, I in enumerate(interps_for(syms, rng, n_samples, seed,
+                                        pool=pool)):
         doms = QDOMS if has_q and idx % 4 == 0 else [QDOMS[idx % len(QDOMS)]
                                                      if has_q else None]
         if steps > step_budget or expensive >= 3:
